@@ -48,10 +48,10 @@ LOCALE = utf8_locale()
 TIMEOUT = 150
 
 # known findings: how a ThreadSanitizer report is attributed (precise predicates, see known-findings.d/C17.json)
-F_KIDOK, F_WSFACETS, F_LAZYCM = "F17-1", "F17-2", "F17-3"
+F_KIDOK, F_WSFACETS, F_LAZYCM, F_CASEI = "F17-1", "F17-2", "F17-3", "F17-4"
 
 
-def inventory(ctx):
+def inventory(ctx, audit_text):
     """T-globals/T-locks/T-init, cached on (tree state, .so, translator source): the translation is a pure function
     of those, so the cache only saves the 10 s of scanning when nothing changed."""
     so = V.lib_so("lib")
@@ -60,6 +60,7 @@ def inventory(ctx):
     h.update(open(os.path.join(V.VERIF, "translator", "c17_globals.py"), "rb").read())
     st = os.stat(so)
     h.update(("%d-%d" % (st.st_size, int(st.st_mtime))).encode())
+    h.update(audit_text.encode())
     key = h.hexdigest()
     side = os.path.join(V.BUILD, "c17_inventory.json")
     stamp = side + ".key"
@@ -67,13 +68,14 @@ def inventory(ctx):
     have = all(os.path.exists(os.path.join(gen, f)) for f in ("GenGlobals.v", "GenLocks.v", "GenInit17.v"))
     if have and os.path.exists(side) and os.path.exists(stamp) and open(stamp).read() == key:
         return json.load(open(side))
-    inv = T.generate(so, V.REPO)
+    inv = T.generate(so, V.REPO, range_audit=T.parse_audit(audit_text))
     open(stamp, "w").write(key)
     return inv
 
 
 def run_one(xh, mode, cfg):
     seed, n, mask, pert, iters = cfg
+    tmo = 20 if mask & 0x1000 else TIMEOUT      # bit12 = witness of F17-4, which can crash or hang the process
     env = dict(os.environ)
     env.update(TSAN_ENV)
     if LOCALE:
@@ -83,7 +85,7 @@ def run_one(xh, mode, cfg):
     t0 = time.time()
     try:
         p = subprocess.run([xh, mode, str(seed), str(n), str(mask), str(pert), str(iters)], stdout=subprocess.PIPE,
-                           stderr=subprocess.PIPE, env=env, timeout=TIMEOUT)
+                           stderr=subprocess.PIPE, env=env, timeout=tmo)
         return {"rc": p.returncode, "out": p.stdout.decode("ascii", "replace"), "err": p.stderr.decode("utf-8", "replace"),
                 "timeout": False, "t": time.time() - t0}
     except subprocess.TimeoutExpired as e:
@@ -135,6 +137,8 @@ def attribute(rep, cfg):
     fr = lib_frames(rep)
     g = rep["global"] or ""
     tops = [top_lib_frame(st) or "" for st in rep["stacks"][:2]]
+    if (cfg[2] & 0x1000) and (rep["kind"].startswith("crash") or any("RangeToken::" in f or "RangeTokenMap::getRange" in f for f in fr)):
+        return F_CASEI          # only the unrestrained regex mode (option i on shared tokens, lazily created complements)
     if rep["kind"].startswith("data race"):
         if "isKidOK" in g and g.endswith("::kidOK"):
             return F_KIDOK
@@ -163,11 +167,11 @@ def gen_configs(ctx):
     nruns = 30 if quick else 1500
     #  bit0 private parsers, bit1 shared locked pool, bit2 DOM, bit3 regex, bit4 transcode, bit5 create/destroy,
     #  bit7 shared locked pool + per-thread schemas via schemaLocation + URI growth, bit8 heavy local-code-page transcoding
-    masks = [0x1BD, 0x1BF, 0x82, 0x01, 0x04, 0x08, 0x110, 0x20, 0x09, 0x14, 0x21, 0x03, 0x80, 0x100, 0x1BF, 0x3D]
+    masks = [0xFBD, 0xFBF, 0x82, 0x01, 0x04, 0x808, 0x110, 0x20, 0x600, 0x14, 0x221, 0x03, 0x80, 0x100, 0xE00, 0x3D]
     cfgs = []
     for k in range(nruns):
         n = (2, 4, 8, 16)[k % 4]
-        mask = masks[(k // 4) % len(masks)] if k < 4 * len(masks) else rng.choice(masks + [rng.randrange(1, 64), 0x180 | rng.randrange(0, 64)])
+        mask = masks[(k // 4) % len(masks)] if k < 4 * len(masks) else rng.choice(masks + [rng.randrange(1, 64), 0x180 | rng.randrange(0, 64), (rng.randrange(1, 8) << 9) | rng.randrange(0, 64)])
         cfgs.append((rng.randrange(1, 10 ** 9), n, mask, rng.randrange(0, 3), rng.randrange(2, 6)))
     return cfgs
 
@@ -180,7 +184,9 @@ def targeted_configs(ctx, rounds=1):
     out = []
     for _ in range(rounds):
         out += [(rng.randrange(1, 10 ** 9), 16, 0x80, 1, 3), (rng.randrange(1, 10 ** 9), 8, 0x80, 2, 4),
-                (rng.randrange(1, 10 ** 9), 16, 0x100, 1, 3), (rng.randrange(1, 10 ** 9), 8, 0x100, 0, 4)]
+                (rng.randrange(1, 10 ** 9), 16, 0x100, 1, 3), (rng.randrange(1, 10 ** 9), 8, 0x100, 0, 4),
+                (rng.randrange(1, 10 ** 9), 16, 0x200, 1, 3), (rng.randrange(1, 10 ** 9), 16, 0x400, 1, 2),
+                (rng.randrange(1, 10 ** 9), 16, 0x800, 1, 2), (rng.randrange(1, 10 ** 9), 8, 0x800, 2, 3)]
         if rounds > 1:
             out += [(rng.randrange(1, 10 ** 9), 16, 0x04, 1, 6), (rng.randrange(1, 10 ** 9), 16, 0x182, 2, 6),
                     (rng.randrange(1, 10 ** 9), 16, 0x3F, 1, 6), (rng.randrange(1, 10 ** 9), 4, 0x180, 1, 8)]
@@ -191,13 +197,24 @@ def looks_bad(job, out):
     """cheap pre-scan used by the refuter: does this run already contain something the decision below will report?"""
     fid, cfg = job
     seq, conc = out
+    if cfg[2] & 0x1000:
+        return False
     if conc["timeout"] or "DONE" not in conc["out"] or seq["rc"] != 0:
         return True
     if any(attribute(rp, cfg) is None for rp in parse_reports(conc["err"])):
         return True
+    if pool_changed(seq["out"]) or pool_changed(conc["out"]):
+        return True
     a = [ln for ln in seq["out"].splitlines() if ln.startswith("T ")]
     b = [ln for ln in conc["out"].splitlines() if ln.startswith("T ")]
     return a != b
+
+
+def pool_changed(out):
+    """the harness prints what the locked pool holds before and after the workloads"""
+    b = [ln[len("POOL before "):] for ln in out.splitlines() if ln.startswith("POOL before ")]
+    a = [ln[len("POOL after "):] for ln in out.splitlines() if ln.startswith("POOL after ")]
+    return bool(b) and bool(a) and a != b
 
 
 def witness_configs(ctx):
@@ -205,7 +222,8 @@ def witness_configs(ctx):
     return [
         (F_KIDOK, [(1001 + i, 8, 0x04, 1, 2) for i in range(3)]),               # DOM only: first isKidOK calls collide
         (F_WSFACETS, [(2001 + i, 16, 0x01, 1, 3) for i in range(6)]),           # private schema parsers: first traversal
-        (F_LAZYCM, [(3001 + i, (8, 16)[i % 2], 0x42, 1 + i % 2, 3) for i in range(6)]),              # shared pool, plain preload
+        (F_LAZYCM, [(3001 + i, (8, 16)[i % 2], 0x42, 1 + i % 2, 3) for i in range(6)]),
+        (F_CASEI, [(4001 + i, 4, 0x1800, 1, 1) for i in range(2)]),             # option i on shared range tokens              # shared pool, plain preload
     ]
 
 
@@ -228,9 +246,13 @@ def run(ctx):
         "destructors of the singletons listed in Classify17.singleton_dtors run only in Terminate"]
     ctx.build_lib()
     ctx.build_lib("lib-tsan")
+    xh = ctx.harness("C17", variant="lib-tsan", extra="-fsanitize=thread -rdynamic -ldl")
     # ---- translate -------------------------------------------------------------------------------------------
     try:
-        inv = inventory(ctx)
+        a = run_one(xh, "audit", (0, 0, 0, 0, 0))          # the built library reports the state of its shared range tokens
+        if a["rc"] != 0 or "DONE" not in a["out"]:
+            raise RuntimeError("range token audit failed: rc=%s %s" % (a["rc"], a["err"][-500:]))
+        inv = inventory(ctx, "\n".join(ln for ln in a["out"].splitlines() if ln.startswith("TOKEN ")))
     except Exception as e:  # noqa
         ctx.note("translator failed: %r" % (e,))
         ctx.violation("translator", {"what": "T-globals/T-locks/T-init can no longer read the tree", "error": repr(e)},
@@ -243,7 +265,11 @@ def run(ctx):
         "access_sites": len(inv["sites"]),
         "sites_inside_lock_scope": len([s for s in inv["sites"] if s["held"]]),
         "store_sites_outside_init_tree": len([s for s in inv["sites"] if s["kind"] in ("write", "dwrite") and not s["init"]]),
-        "init_order": inv["init"]["init_order"], "pool_guards": inv["pool_guards"]}
+        "init_order": inv["init"]["init_order"], "pool_guards": inv["pool_guards"],
+        "range_tokens": {"audited": len(inv["range_audit"]),
+                         "without_bitmap": [t["key"] for t in inv["range_audit"] if t["present"] and not t["map"]],
+                         "complement_created_on_first_use": [t["key"] for t in inv["range_audit"] if t["compl"] and not t["present"]],
+                         "case_insensitive_twin_not_preset": len([t for t in inv["range_audit"] if t["present"] and not t["casei"]])}}
     # ---- prove -----------------------------------------------------------------------------------------------
     ok, out, failed = ctx.prove(["Base", "Gen", "C17"], ["theories/C17/Properties_C17.vo"],
                                 props_file="theories/C17/Properties_C17.v", timeout=900)
@@ -258,7 +284,6 @@ def run(ctx):
                           and any(s["sym"] == e["id"] and s["kind"] in ("write", "dwrite") and not s["held"] and not s["init"]
                                   for s in inv["sites"])})
     # ---- exploration -----------------------------------------------------------------------------------------
-    xh = ctx.harness("C17", variant="lib-tsan", extra="-fsanitize=thread -rdynamic -ldl")
     if ctx.replay:
         r = json.load(open(ctx.replay))
         req = r.get("request")
@@ -331,6 +356,10 @@ def run(ctx):
         req = " ".join(str(x) for x in cfg)
         key = "n%d mask%02x perturb%d" % (cfg[1], cfg[2], cfg[3])
         kinds[key] = kinds.get(key, 0) + 1
+        if (cfg[2] & 0x1000) and ctx.find_known(F_CASEI) and (conc["timeout"] or "DONE" not in conc["out"] or "DONE" not in seq["out"]):
+            # the unrestrained regex mode can crash or hang the process, even the single-threaded reference run
+            seen_findings.setdefault(F_CASEI, []).append((req, ("crash-or-hang", "sequential" if "DONE" not in seq["out"] else "concurrent")))
+            continue
         if seq["rc"] != 0 or "DONE" not in seq["out"]:
             reps = parse_reports(seq["err"])
             viol += 1
@@ -338,6 +367,13 @@ def run(ctx):
                 ctx.violation("sequential-run-failed", {"request": req, "what": "the single-threaded reference run failed",
                                                         "rc": seq["rc"], "stderr": seq["err"][-3000:], "reports": len(reps)})
             continue
+        for which, r_ in (("sequential", seq), ("concurrent", conc)):
+            if pool_changed(r_["out"]):
+                viol += 1
+                if viol <= 6:
+                    ctx.violation("pool-changed-while-locked",
+                                  {"request": req, "run": which, "what": "the grammar registry of a LOCKED pool changed while parsers used it",
+                                   "pool": [ln for ln in r_["out"].splitlines() if ln.startswith("POOL ")]})
         if conc["timeout"]:
             viol += 1
             if viol <= 5:
@@ -402,6 +438,10 @@ def run(ctx):
                       "synchronisation (data race between first DOM insertions of different documents)",
              F_WSFACETS: "TraverseSchema::getElementAttValue sets bInitialized=true BEFORE filling wsFacets[] and without "
                          "synchronisation (data race; a second schema-loading thread can read an unfilled table)",
+             F_CASEI: "shared RangeTokens of RangeTokenMap carry lazily built state: RangeToken::getCaseInsensitiveToken caches a "
+                      "regex-PRIVATE case-insensitive twin inside the shared token (option i on \\s \\w \\d \\i \\c, block escapes, "
+                      "\\P{..}), unsynchronised and freed with that regex (data race, then use-after-free/crash in other "
+                      "threads); four complement tokens (ALL, ASSIGNED, IsAlnum, IsAlpha) are created on first use",
              F_LAZYCM: "a locked, shared XMLGrammarPool is not read-only: ComplexTypeInfo::getContentModel builds "
                        "fContentModel lazily inside the shared grammar when the grammar was cached without "
                        "validation+full schema checking (data race between parsers sharing the pool)"}
@@ -410,7 +450,7 @@ def run(ctx):
         static_ids.add(F_KIDOK)
     if any(o == "TraverseSchema::getElementAttValue" for o, _ in racy_static):
         static_ids.add(F_WSFACETS)
-    for fid in (F_KIDOK, F_WSFACETS, F_LAZYCM):
+    for fid in (F_KIDOK, F_WSFACETS, F_LAZYCM, F_CASEI):
         hits = seen_findings.get(fid, [])
         if not hits and fid not in static_ids:
             continue
